@@ -179,7 +179,10 @@ def _check_parsers(repo, r1):
             if not (c[0] == "call" and c[1][0] == "method" and c[1][2] == "append" and len(c[2]) == 1):
                 continue
             e = c[2][0]
-            if e not in (E, E2):
+            # (one element of list_utils.chunks(block, identifier_size) is such a stride: R17.4 establishes what chunks yields)
+            via_chunks = e[0] == "elem" and e[1][0] == "call" and e[1][1][0] == "fn" and e[1][1][1].split(".")[-1] == "chunks" and e[1][2] == (blk, sz) and not e[1][3] and \
+                (e[1][1][1] == "toolkit.list_utils.chunks" or q.module.imports.get(e[1][1][1].split(".")[0]) in ("toolkit.list_utils.chunks", "toolkit.list_utils", "toolkit"))
+            if e not in (E, E2) and not via_chunks:
                 r1.fail_fn(q, q.node, "entry = one stride from the left", "parser collects %s; expected block[i : i + identifier_size] for i stepping by identifier_size" % S.show(e)[:140])
                 return
             collected = True
